@@ -70,22 +70,14 @@ def text_of(p: dict, units: dict | None = None) -> str:
     return ''.join(f'{k}, {v}{(" " + units[k]) if k in units else ""}\n' for k, v in p.items())
 
 
-def run(tier: str) -> int:
-    res = Result('C17', tier)
-    r = tlc.run_tlc('HipRa', 'MC_HipRa.cfg', workers=8, timeout=600)
-    tlc.check_mc(r, 'MC_HipRa.cfg', ['Calc'])
-    if r['violated']:
-        raise MachineryFailure(f'HipRa.tla violates {r["violated"]}')
-    res.add_mc(r, 'MC_HipRa.cfg')
-    rng = random.Random(seed() * 17 + 17)
-    n = 150 if tier == 'quick' else 1500
-    bases = [gen_input(rng) for _ in range(n)]
+def evaluate(res: Result, bases: list, rng: random.Random, full: bool = False):
+    """Run every base with its area / thickness / unit variants through the real HIP-RA-X and judge them (TraceHipRa, TraceRelation)."""
     jobs, plan = [], []
     for k, p in enumerate(bases):
         plan.append(('base', k, None))
         jobs.append(text_of(p))
         for kind, key in (('area', 'Reservoir Area'), ('thick', 'Reservoir Thickness')):
-            for f in rng.sample([0.5, 2.0, 10.0, 0.1], 2):
+            for f in ([0.5, 2.0, 10.0, 0.1] if full else rng.sample([0.5, 2.0, 10.0, 0.1], 2)):
                 q = dict(p)
                 q[key] = p[key] * f
                 if q[key] > 9000:
@@ -95,13 +87,13 @@ def run(tier: str) -> int:
         # unit variants: the same inputs written in other catalogue units
         u = dict(p)
         units = {}
-        if rng.random() < 0.7:
+        if full or rng.random() < 0.7:
             u['Reservoir Thickness'] = p['Reservoir Thickness'] * 1000
             units['Reservoir Thickness'] = 'm'
-        if rng.random() < 0.5:
+        if full or rng.random() < 0.5:
             u['Reservoir Temperature'] = p['Reservoir Temperature'] * 9 / 5 + 32
             units['Reservoir Temperature'] = 'degF'
-        if 'Reservoir Depth' in p and rng.random() < 0.6:
+        if 'Reservoir Depth' in p and (full or rng.random() < 0.6):
             u['Reservoir Depth'] = p['Reservoir Depth'] * 1000
             units['Reservoir Depth'] = 'm'
         if units:
@@ -164,6 +156,20 @@ def run(tier: str) -> int:
             comp = names[wit[0]['component'] - 1] if wit and wit[0].get('component') else '?'
             res.violation({'clause': c, 'variant': kind, 'output': comp, 'input': json.dumps(bases[k], sort_keys=True)},
                           f'{c} fails: {kind} x {f} on {bases[k]}: output {comp}: {wit}', {'input_text': text_of(bases[k]), 'variant': kind, 'factor': f, 'witness': wit})
+    return counts, traces
+
+
+def run(tier: str) -> int:
+    res = Result('C17', tier)
+    r = tlc.run_tlc('HipRa', 'MC_HipRa.cfg', workers=8, timeout=600)
+    tlc.check_mc(r, 'MC_HipRa.cfg', ['Calc'])
+    if r['violated']:
+        raise MachineryFailure(f'HipRa.tla violates {r["violated"]}')
+    res.add_mc(r, 'MC_HipRa.cfg')
+    rng = random.Random(seed() * 17 + 17)
+    n = 150 if tier == 'quick' else 1500
+    bases = [gen_input(rng) for _ in range(n)]
+    counts, traces = evaluate(res, bases, rng)
     res.cov['clauses'] = counts
     res.sample({'hip_trace': traces[0]})
     for need in ('C17_vol_rock', 'C17_stored_sum', 'C17_avail_le_stored', 'C17_prod_le_avail', 'C17_area_homog', 'C17_thick_homog',
@@ -176,5 +182,8 @@ def run(tier: str) -> int:
 
 
 def replay(path: str) -> int:
-    print(open(path).read()[:3000])
-    return 0
+    data = json.loads(open(path).read())
+    res = Result('C17', 'quick')
+    base = json.loads(data['key']['input'])     # the generated input (parameter -> value) the violation was observed on
+    evaluate(res, [base], random.Random(0), full=True)
+    return res.finish()
